@@ -19,11 +19,14 @@ func drive(c *fw.Ctx, scenario string, bound int, run func(x *explore.Exec, owne
 		run(x, true)
 		return explore.Stats{Execs: 1}
 	}
-	st := explore.Explore(explore.Config{Bound: bound, Deadline: c.Deadline, Shard: c.Shard, NShards: c.NShards}, run)
+	st := explore.Explore(explore.Config{Bound: bound, Deadline: c.Deadline, Shard: c.Shard, NShards: c.NShards, ShardDepth: 3, Claim: c.NextClaim()}, run)
 	c.Res.Execs += st.Execs
 	c.Res.Points += st.Points
 	if st.MaxDepth > c.Res.MaxDepth {
 		c.Res.MaxDepth = st.MaxDepth
+	}
+	if c.Verbose {
+		c.Res.Note("scenario %s: %d executions (shard %d/%d)", scenario, st.Execs, c.Shard, c.NShards)
 	}
 	if st.Capped {
 		c.Res.Capped = true
